@@ -56,6 +56,7 @@ func concurrentPhase(run *ev.Run) {
 		var probs []string
 		hi, lo := uint64(r.Intn(2)), uint64(1+r.Intn(5))
 		opID := uint64(0)
+		lastIDs := make([]*spb.Uint128, nS)
 		for round := 0; round < 2+r.Intn(4) && len(probs) == 0; round++ {
 			// distinct ids above everything announced so far; every other round the order of the
 			// ids is decided by the high word while the low words run the other way
@@ -75,6 +76,7 @@ func concurrentPhase(run *ev.Run) {
 				}
 			}
 			hi, lo = ids[maxK].High, ids[maxK].Low
+			copy(lastIDs, ids)
 			reps := make([]*spb.Uint128, nS)
 			errs := make([]error, nS)
 			start := make(chan struct{})
@@ -138,6 +140,74 @@ func concurrentPhase(run *ev.Run) {
 				}
 				run.Count("operations", 1)
 			}
+		}
+		// overlap: the primary keeps sending single-operation requests while every other
+		// session sends one large request stamped with the primary's id (the server's maximum,
+		// but not what those sessions announced): whatever the interleaving of the requests, none
+		// of the other sessions' operations may be programmed and every one of the primary's is
+		if len(probs) == 0 && i%2 == 0 {
+			var maxK int
+			for k := range ss {
+				if k == 0 || mon.Big128(lastIDs[k]).Cmp(mon.Big128(lastIDs[maxK])) > 0 {
+					maxK = k
+				}
+			}
+			pid := lastIDs[maxK]
+			var mu sync.Mutex
+			var wg sync.WaitGroup
+			start := make(chan struct{})
+			for k := range ss {
+				wg.Add(1)
+				go func(k int) {
+					defer wg.Done()
+					<-start
+					if k == maxK {
+						for q := 0; q < 120; q++ {
+							id := uint64(1000000 + q)
+							op := &spb.AFTOperation{Id: id, NetworkInstance: "VRF1", Op: spb.AFTOperation_ADD, ElectionId: pid,
+								Entry: &spb.AFTOperation_NextHop{NextHop: &aftpb.Afts_NextHopKey{Index: uint64(5000 + q), NextHop: &aftpb.Afts_NextHop{IpAddress: gen.S("192.0.2.1")}}}}
+							res := ss[k].Ops([]*spb.AFTOperation{op}, pid)
+							ok := false
+							for _, ar := range res.Results {
+								ok = ok || (ar.GetId() == id && ar.GetStatus() == spb.AFTResult_RIB_PROGRAMMED)
+							}
+							if !ok {
+								mu.Lock()
+								if res.RPCErr == drv.ErrWatchdog {
+									probs = append(probs, "INCONCLUSIVE|an operation of the primary was not answered within the watchdog")
+								} else {
+									probs = append(probs, fmt.Sprintf("rejected-but-must-succeed:primary-while-others-operate|%s is the primary (id %s); its operation %d was answered %v (rpcErr=%v) while other sessions were sending requests", ss[k].Name, mon.IDStr(pid), id, res.Results, res.RPCErr))
+								}
+								mu.Unlock()
+								return
+							}
+						}
+						return
+					}
+					var ops []*spb.AFTOperation
+					base := uint64(2000000 + 1000*k)
+					for q := 0; q < 150; q++ {
+						ops = append(ops, &spb.AFTOperation{Id: base + uint64(q), NetworkInstance: "VRF1", Op: spb.AFTOperation_ADD, ElectionId: pid,
+							Entry: &spb.AFTOperation_NextHop{NextHop: &aftpb.Afts_NextHopKey{Index: uint64(7000 + 200*k + q), NextHop: &aftpb.Afts_NextHop{IpAddress: gen.S("192.0.2.2")}}}})
+					}
+					res := ss[k].Ops(ops, lastIDs[k])
+					n := 0
+					for _, ar := range res.Results {
+						if ar.GetId() >= base && ar.GetId() < base+150 && ar.GetStatus() == spb.AFTResult_RIB_PROGRAMMED {
+							n++
+						}
+					}
+					if n > 0 {
+						mu.Lock()
+						probs = append(probs, fmt.Sprintf("unauthorised-operation-acknowledged:not-the-primary-while-the-primary-operates|%d of the 150 operations of %s (not the primary; stamped with the primary's id %s) were programmed while the primary was sending requests of its own", n, ss[k].Name, mon.IDStr(pid)))
+						mu.Unlock()
+					}
+				}(k)
+			}
+			close(start)
+			wg.Wait()
+			trace = append(trace, "overlap: the primary sends 120 single-operation requests while every other session sends one request of 150 operations stamped with the primary's id")
+			run.Count("overlapping_request_rounds", 1)
 		}
 		mon.Report(run, caseID, trace, probs)
 		run.Eval(1)
